@@ -76,30 +76,40 @@ def run(ctx):
             pat = derive_pattern(r, name, "*?" if kind == "glob" else "%_")
             subj = name if r.chance(1, 2) else rand_name(r)
             pairs.append((kind, pat, subj))
-        for kind, pat, subj in pairs:
+        for i_pair, (kind, pat, subj) in enumerate(pairs):
             ctx.case((kind, pat, subj))
             a = ctx.model.ask("fn\t" + kind, pat)
             b = ctx.harness.ask(kind, pat)
-            if a != b:
+            same_text = a == b
+            if not same_text:
                 ctx.disagree("%sToPattern (model) = convert_%s_to_pattern (implementation)" % (kind, kind), {"pattern": pat},
                              common.unhx(a).decode("utf-8", "replace"), common.unhx(b).decode("utf-8", "replace") if not b.startswith("died") else b)
-                continue
+                if b.startswith("died"):
+                    continue
             rx = common.unhx(b).decode("utf-8")
-            ma = ctx.model.ask("fn\trxmatch", rx, subj)
-            mb = ctx.harness.ask("rxmatch", rx, subj)
-            if ma == "unsupported":
-                ctx.count("rx_unsupported")
-            elif ma != mb:
-                ctx.disagree("Re.isMatch ∘ rxParse (model) = Regex::is_match (regex crate)", {"regex": rx, "subject": subj}, ma, mb)
+            # subjects: the given one, and the pattern's own minimal instances (every `*` empty; every `?` one
+            # character, or none — the second must NOT match when the pattern has a `?`)
+            w_any, w_one = ("*", "?") if kind == "glob" else ("%", "_")
+            subjects = [subj, pat.replace(w_any, "").replace(w_one, "x"), pat.replace(w_any, "").replace(w_one, "")]
+            for sj in subjects if (not same_text or i_pair % 5 == 0) else subjects[:1]:
+                if "\0" in sj:
+                    continue
+                mb = ctx.harness.ask("rxmatch", rx, sj)
+                if same_text:
+                    ma = ctx.model.ask("fn\trxmatch", rx, sj)
+                    if ma == "unsupported":
+                        ctx.count("rx_unsupported")
+                    elif ma != mb:
+                        ctx.disagree("Re.isMatch ∘ rxParse (model) = Regex::is_match (regex crate)", {"regex": rx, "subject": sj}, ma, mb)
+                want = oracle.glob_match(pat, sj) if kind == "glob" else oracle.like_match(pat, sj)
+                if mb in ("true", "false") and (mb == "true") != want:
+                    ctx.oracle_fail("%s pattern does not match per the textbook definition" % kind,
+                                    {"pattern": pat, "subject": sj, "level": "in-process convert + Regex::is_match"},
+                                    detail={"regex": rx, "got": mb, "want": want})
             sh = ctx.model.ask("fn\tglobshape", kind, pat)
             if sh != "same":
                 ctx.disagree("model-internal test: rxParse (converted pattern) = anchored atom chain of C12's theorems",
                              {"kind": kind, "pattern": pat}, sh, "same")
-            want = oracle.glob_match(pat, subj) if kind == "glob" else oracle.like_match(pat, subj)
-            if mb in ("true", "false") and (mb == "true") != want:
-                ctx.oracle_fail("%s pattern does not match per the textbook definition" % kind,
-                                {"pattern": pat, "subject": subj, "level": "in-process convert + Regex::is_match"},
-                                detail={"regex": rx, "got": mb, "want": want})
         # user regexes on the modelled fragment
         for i in range(600 if quick else 6000):
             name = rand_name(r)
